@@ -89,6 +89,32 @@ CHECKS["C04"] = dict(level="fault_enumeration", engine="sweep",
    note="Verification keys are a fixed alphabet (a cheat passing by chance: <= 2/2^64 per key at inner levels). Two simultaneous non-zero candidates are reachable only through tampering (the IDPF is a point function), which layer (b) enumerates at byte level.",
    design="§2 C04")
 
+CHECKS["C07"] = dict(level="exploration", engine="sweep",
+   technique="bounded-exhaustive enumeration of byte strings (all strings of length <=2, every single-byte substitution / truncation / extension of every honest encoding, every field slot at 0/p-1/p/p+1/all-ones) against a reference grammar of each wire format, for every (type, decoding parameter) pair",
+   text="A catalogue of ~2,400 (decodable type, decoding parameter) pairs -- all Prio3 messages for seven types x 1..4 aggregators x 1..3 proofs, Poplar1 with 32- and 16-byte seeds for 1..9 bits at every level and round, Prio2, ping-pong messages and continuations over five VDAFs, seeds, all fields, IDPF public shares, the vector helpers -- with honest values produced in-process; the library must accept a string exactly when a harness-side reference grammar does, every accepted string must re-encode to itself, encoded_len() must equal the produced length and decode(encode(v)) == v.",
+   note="FLP lengths sizing Prio3 records come from the Type trait (C05's subject); for long strings the mutated positions are a strided subset; FieldPrio2 is not exhaustive over its 2^32 strings.",
+   design="§2 C07")
+CHECKS["C08"] = dict(level="fault_enumeration", engine="sweep",
+   technique="fault enumeration of byte strings (C07's sets plus header fields at extremes x bodies 0..40 bytes) against every decoder in worker subprocesses with a counting allocator (per-call budget) and a watchdog",
+   text="Every decoder x every admissible decoding parameter is run on C07's string sets plus crafted headers (aggregation-parameter level/count at extremes, length prefixes at 0/len/len+-1/max, output_share_len up to 2^32-1, tags 0..255) in worker subprocesses: a call must return Ok or Err -- no panic (overflow checks on), no hang (2 s), and no allocation beyond 256*len + instance-implied size + 64 KiB (counting global allocator aborts the worker, the parent attributes the death to the case).",
+   note="Decoding parameters are admissible instances (Poplar1 bits 1..64 and 65536; bits=0 is run separately). Instances with absurd bit lengths (>= 2^59) are not run (instance-proportional allocation).",
+   design="§2 C08")
+CHECKS["C13"] = dict(level="model_checking", engine="bfs",
+   technique="explicit-state BFS over the aggregation state space (multiset of partial aggregates tagged with the subset they cover) with the real aggregate_init/accumulate/merge/aggregate/unshard as transition function, vs subset sums on residues",
+   text="For 37 instances (Prio3 Count/SumVec/Histogram over deployed and small fields, Prio2, Poplar1 inner and leaf incl. colliding level bytes) and share tuples from extreme values (all residues over GF(17)/GF(97)), every order and tree shape of aggregate_init / From / accumulate / merge is explored; in every state each aggregate must equal the reference sum of its subset, merging the empty aggregate changes nothing, every ill-shaped operand (every wrong length, Inner/Leaf mix, both directions) must be refused leaving the accumulator byte-identical, one-shot aggregate over every permutation and unshard over terminal aggregates equal the single pass.",
+   note="k <= 5 shares with unrestricted tree shapes (6-7 with at most two live aggregates); deployed fields on extreme residues only; state deduplication assumes equal kind+encoding imply equal futures.",
+   design="§2 C13")
+CHECKS["C15"] = dict(level="model_checking", engine="choices",
+   technique="weighted choice-tape exploration: exhaustive path enumeration of each sampler layer with exact rational / interval probability mass, lower layers intercepted and answered from their specified law (assume-guarantee), down to a residual of 2^-40 (quick) / 2^-64 (thorough)",
+   text="Each private sampler layer (uniform big integer through the public Rng interface with scripted words; Bernoulli(n/d) for ALL n<=d<=64/128; Bernoulli(exp(-gamma)); geometric; discrete Laplace; discrete Gaussian) runs for real under a poisoned Rng while its calls to the layer below are intercepted, their arguments checked against Canonne-Kamath-Steinke, and their outcomes enumerated with exact masses (rational intervals for e^-x on a 2^-192 grid); rejection loops are cut at the renewal point (verified by replay) and the enumerated law must contain the closed-form law for every integer with mass above the residual. The public distributions reach the samplers with the exact rational; both strategies give scale = sensitivity/epsilon exactly; add_noise_to_agg_share draws once per coordinate with the documented sensitivity and adds noise mod p (floor) for noise in {0,+-1,+-(p-1),+-p,+-(p+1),+-2^200}.",
+   note="Biases below the residual above the Bernoulli/uniform layers are not visible; the renewal argument is verified to a finite nesting depth; end-to-end (only the uniform layer intercepted) is coarse and Laplace-only.",
+   design="§2 C15")
+CHECKS["C16"] = dict(level="fault_enumeration", engine="sweep",
+   technique="exhaustive enumeration of an argument lattice (products of up to 3 parameters) for every Result-returning public operation, in worker subprocesses with allocation cap and CPU watchdog, against a harness-side domain predicate",
+   text="Every constructor and Result-returning operation of Prio3, Prio2, Poplar1, the FLP types, dp and idpf is called on a lattice (0,1,2,3, 2^k-1/2^k/2^k+1, p-1/p/p+1, MAX-1, MAX; all 256x256 aggregator/proof counts; measurement, aggregator-id, share-role/length/blind and share-count menus incl. neutral count changes; cross-instance states, shares and messages; ctx lengths up to 2^20; Poplar1 bits 0..usize::MAX): the call must return (Err where the domain predicate says so, Ok where valid), never panic, abort, hang or allocate > 2 GiB; accepted constructors must have computable lengths and carry one honest report end to end.",
+   note="Known finding (open): context strings longer than 65527 bytes panic inside the XOF (see known_findings.json). Operations use OS randomness where the library offers no seam; only the outcome class is observed there.",
+   design="§2 C16")
+
 NOT_APPLICABLE = {}
 
 def main():
